@@ -127,6 +127,40 @@ def overlapping_reference_shapes():
     return out
 
 
+def invalid_next_to_any_field_shapes():
+    """ill-formed steps that ALSO carry a present field of type any (wait_for) in the same stage: the verdict on the
+    faulty field must not depend on the order in which the fields of the stage are looked at. All of these are invalid."""
+    out = []
+    a = {'kind': 'plugin', 'pstep': 'work', 'fields': {'input': tmap({'id': lit('a')})}}
+    faults = [('int-from-string-ref', lambda k: k.__setitem__('n', ref('steps.a.outputs.success.tok'))),
+              ('int-literal', lambda k: k.__setitem__('n', lit('abc'))),
+              ('missing-required', lambda k: k.__delitem__('id')),
+              ('unknown-field', lambda k: k.__setitem__('zzz', lit(1)))]
+    for name, f in faults:
+        kids = {'id': lit('b')}
+        f(kids)
+        b = {'kind': 'plugin', 'pstep': 'work', 'fields': {'input': tmap(kids), 'wait_for': ref('steps.a.outputs.success'), 'closure_wait_timeout': lit(100)}}
+        out.append((name, {'steps': {'a': a, 'b': b}, 'outputs': {'success': tmap({'b': ref('steps.b.outputs.success.tok')})}}))
+    return out
+
+
+def list_reference_shapes():
+    """lists mixing literals and references at every position (in a step input and in the output tree): a reference is a
+    dependency wherever in the list it stands and whatever stands before it"""
+    from vlib import tlist, opt
+    out = []
+    a = {'kind': 'plugin', 'pstep': 'work', 'fields': {'input': tmap({'id': lit('a')})}}
+    r = lambda: ref('steps.a.outputs.success.tok')
+    for name, mk in [('lit-ref', lambda: tlist([lit('z'), r()])), ('lit-lit-ref', lambda: tlist([lit('z'), lit('y'), r()])),
+                     ('ref-lit', lambda: tlist([r(), lit('z')])), ('map-map', lambda: tlist([tmap({'x': lit('z')}), tmap({'x': r()})])),
+                     ('nested', lambda: tlist([tlist([lit('z')]), tlist([lit('y'), r()])]))]:
+        # (the items of a list have one type: lists mixing strings with numbers or objects are refused, rightly)
+        b = {'kind': 'plugin', 'pstep': 'work', 'fields': {'input': tmap({'id': lit('b'), 'deps': tmap({'l': mk()})})}}
+        out.append({'steps': {'a': a, 'b': b},
+                    'outputs': {'success': tmap({'b': ref('steps.b.outputs.success.tok'), 'l': mk()})}})
+    return out
+
+
 def any_typed_consumer_shapes():
     """every output object the engine generates for a plugin step and for a loop step, referred to where a value of any
     type is taken (wait_for of another step, the workflow's output tree): all of these are well-formed workflows"""
